@@ -224,10 +224,55 @@ def callVariant (g : Cfg) (t : TxIn) (vs : List Var) : List Pep :=
       peptidesOf g t (applyHap t.seq h) (secAfter t.sec h) t.endNF).filter fun p =>
     !deny.contains p && !g.canonical.contains p
 
-/-- S (C03): `p` is a product of the haplotype consisting of exactly the records `ids` -/
+/-- ascending, non-overlapping; adjacency only between two records of one merge class and
+never three in a row (what the merged pairs of `haplotypes` allow) -/
+def separatedOrPaired : List Var → Bool
+  | [] => true
+  | [_] => true
+  | a :: b :: rest =>
+    if a.stop < b.start then separatedOrPaired (b :: rest)
+    else if a.stop == b.start && sameMergeCls a b then
+      -- `b` must be strictly separated from what follows
+      (match rest with
+        | [] => true
+        | c :: _ => decide (b.stop < c.start)) && separatedOrPaired (b :: rest)
+    else false
+
+/-- S (C03): applying exactly the records named by `ids` (all of them usable and mutually
+compatible) to the transcript gives a translation of which `p` is a digestion product -/
 def witness (g : Cfg) (t : TxIn) (vs : List Var) (ids : List Nat) (p : Pep) : Bool :=
-  (haplotypes t vs).any fun h =>
-    (h.flatMap (·.ids)).all ids.contains && ids.all (h.flatMap (·.ids)).contains &&
+  let us := sortByStart (vs.filterMap (usable t))
+  let h := us.filter fun v => v.ids.all ids.contains
+  ids.all (fun i => h.any (·.ids.contains i)) && separatedOrPaired h &&
+    (peptidesOf g t (applyHap t.seq h) (secAfter t.sec h) t.endNF).contains p
+
+/-- the smallest set of additional record ids that turns `ids` into a witness for `p`
+(`none` if no compatible combination containing `ids` yields `p`): used to describe HOW a
+header entry fails to be a witness -/
+def witnessCompletion (g : Cfg) (t : TxIn) (vs : List Var) (ids : List Nat) (p : Pep) :
+    Option (List Nat) :=
+  let cands := (haplotypes t vs).filter fun h =>
+    ids.all (h.flatMap (·.ids)).contains &&
       (peptidesOf g t (applyHap t.seq h) (secAfter t.sec h) t.endNF).contains p
+  let extras := cands.map fun h => (h.flatMap (·.ids)).filter fun i => !ids.contains i
+  extras.foldl (fun best e => match best with
+    | none => some e
+    | some b => if e.length < b.length then some e else some b) none
+
+/-! ### callNovelORF and callAltTranslation (no variants) -/
+
+/-- S (C08): peptides of every ATG-initiated ORF in three frames of the transcript, with W→F
+forms when requested, minus the canonical pool -/
+def novelOrfPeptides (g : Cfg) (seq : List Char) : List Pep :=
+  let t : TxIn := { seq := seq, coding := false, orfStart := 0, orfEnd := 0, startNF := false,
+                    endNF := false, sec := [] }
+  (peptidesOf { g with sect := false } t seq [] false).filter fun p => !g.canonical.contains p
+
+/-- S (C09): digestion products of the annotated ORF that arise ONLY through Sec termination
+and/or W→F substitution (per flags), minus the canonical pool -/
+def altTranslationPeptides (g : Cfg) (t : TxIn) : List Pep :=
+  let plain := peptidesOf { g with sect := false, w2f := false } t t.seq t.sec false
+  (peptidesOf g t t.seq t.sec false).filter fun p =>
+    !plain.contains p && !g.canonical.contains p
 
 end MoPepGen.Spec
